@@ -7,6 +7,7 @@ structure St where
   nbName : Option String := none     -- op argument of the last nb
   cbComp : Option String := none     -- op argument of the last cb
   blob : Option Bytes := none        -- the implementation's output of the last nb / cb
+  held : Option Mk := none
   mref : Option (Nat × String) := none   -- (bit, implementation's contiguous decode) of the last `mrd <bit> c`
 
 def specRead (mk : Mk) (cuts : String) (got : String) (what : String) : List SpecFail :=
@@ -50,6 +51,28 @@ def stepC03 (st : St) (op : String) (got : String) : StepResult St :=
     let r := runMki f got
     { st := { st with last := r.built, mkExpected := some r.expected }, expected := none, spec := r.spec, cov := r.cov,
       nontrivial := (r.built.map (·.nontrivial)).getD false }
+  | ["hold"] =>
+    match st.last with
+    | none => { st := st, expected := some "skip" }
+    | some mk => { st := { st with held := some mk }, expected := some "ok", cov := ["hold"] }
+  | ["rdheld"] =>
+    match st.held with
+    | none => { st := st, expected := some "skip" }
+    | some mk =>
+      let body := (got.splitOn " ").dropLast
+      let g := " ".intercalate body
+      let g' := if mk.signed then g else stripCov g
+      { st := st, expected := some (modelRead mk.kind mk.w "c" ++ " same"), cov := ["rdheld"],
+        spec :=
+          (if isCrash got then [⟨"no-panic", "rdheld", tk got 160⟩] else []) ++
+          (if (got.splitOn " ").getLast? == some "changed" then
+            [⟨"stable", String.singleton mk.kind ++ "-" ++ sigBase mk.signer,
+              "the bytes of a packet changed after the same signer instance built another packet"⟩] else []) ++
+          (match mk.expectText with
+           | some e => if !isCrash got ∧ g' ≠ e then
+               [⟨"roundtrip", "held-" ++ String.singleton mk.kind ++ "-" ++ sigBase mk.signer,
+                 s!"a packet decoded again after the same signer instance built another packet no longer yields what was built: want {tk e 200} got {tk g' 200}"⟩] else []
+           | none => []) }
   | ["tz", _] => { st := st, expected := some "ok", cov := ["tz"] }
   | ["cmp"] =>
     match st.mkExpected with
